@@ -319,12 +319,21 @@ func genDedup(g *gen, repo string) {
 	// --- checkMyMessageID constants: `... >= A` and `oldID + B`; NewConnWithOpts: cfg.GetMID() - C
 	cm := funcDecl(f, "Conn", "checkMyMessageID")
 	var guard, jump uint64
-	var guardSeen, jumpSeen, conOnly bool
+	var guardSeen, jumpSeen, conOnly, conAndNon bool
 	ast.Inspect(cm, func(x ast.Node) bool {
 		switch v := x.(type) {
 		case *ast.IfStmt:
 			if b, ok := v.Cond.(*ast.BinaryExpr); ok && b.Op == token.EQL && drDotted(b.X) == "req.Type()" && drDotted(b.Y) == "message.Confirmable" {
 				conOnly = true
+			}
+			// `req.Type() == message.Confirmable || req.Type() == message.NonConfirmable`: every message that carries an ID of the peer's own
+			if b, ok := v.Cond.(*ast.BinaryExpr); ok && b.Op == token.LOR {
+				l, lok := b.X.(*ast.BinaryExpr)
+				r, rok := b.Y.(*ast.BinaryExpr)
+				if lok && rok && l.Op == token.EQL && r.Op == token.EQL && drDotted(l.X) == "req.Type()" && drDotted(r.X) == "req.Type()" &&
+					drDotted(l.Y) == "message.Confirmable" && drDotted(r.Y) == "message.NonConfirmable" {
+					conAndNon = true
+				}
 			}
 			if b, ok := v.Cond.(*ast.BinaryExpr); ok && b.Op == token.GEQ {
 				if sub, ok := b.X.(*ast.BinaryExpr); ok && sub.Op == token.SUB {
@@ -342,7 +351,7 @@ func genDedup(g *gen, repo string) {
 		}
 		return true
 	})
-	if !guardSeen || !jumpSeen || !conOnly {
+	if !guardSeen || !jumpSeen || conOnly == conAndNon {
 		fail("checkMyMessageID: shape not recognised")
 	}
 	nc := funcDecl(f, "", "NewConnWithOpts")
@@ -369,7 +378,8 @@ func genDedup(g *gen, repo string) {
 	fmt.Fprintf(&b, "/-- processResponse caches an empty (code 0.00) or reset reply like any other reply (AST) -/\ndef emptyReplyCached : Bool := %s\n", drLeanBool(emptyCached))
 	fmt.Fprintf(&b, "/-- handleReq takes msgIDMutex.Lock(req.MessageID()) with a deferred Unlock before check/handle/store (AST) -/\ndef handleReqLockedPerMID : Bool := %s\n", drLeanBool(locked))
 	fmt.Fprintf(&b, "/-- handleReq does not wait for the per-message-ID lock with the reader loop in its hand: it tries the lock first and, when a copy of a request that is still being handled finds it taken, asks for a replacement loop (TryToReplaceLoop) before it waits (AST; false: plain Lock) -/\ndef copyWaitsAfterHandover : Bool := %s\n", drLeanBool(tryShape && handsOver))
-	fmt.Fprintf(&b, "/-- checkMyMessageID: applies to confirmable messages only; distance guard and jump; NewConnWithOpts initial offset (AST) -/\ndef midGuard : Nat := %d\ndef midJump : Nat := %d\ndef midInitOffset : Nat := %d\n", guard, jump, initOff)
+	fmt.Fprintf(&b, "/-- checkMyMessageID: distance guard and jump; NewConnWithOpts initial offset (AST) -/\ndef midGuard : Nat := %d\ndef midJump : Nat := %d\ndef midInitOffset : Nat := %d\n", guard, jump, initOff)
+	fmt.Fprintf(&b, "/-- checkMyMessageID applies to non-confirmable messages of the peer as well as to confirmable ones (false: to confirmable ones only) (AST) -/\ndef midJumpOnNon : Bool := %s\n", drLeanBool(conAndNon))
 	// servers: which cache do the connections they create get, and in which order does the datagram server look a peer up
 	_, fd := parseFile(repo, "dtls/server/server.go")
 	dtlsDefault := drConnDefaultCache(funcDecl(fd, "Server", "createConn"), "udpClient")
